@@ -375,6 +375,8 @@ class ExprMixin:
         if isinstance(l, VRef) and isinstance(r, VRef): return l.t == r.t
         if isinstance(l, VLpVar) and isinstance(r, VLpVar): return l.t == r.t
         if isinstance(l, VStr) and isinstance(r, VStr): return self.str_equal(l, r)
+        for a, b in ((l, r), (r, l)):      # token line == '': no token at all (every piece leaves at least one token or is empty)
+            if isinstance(a, VList) and a.kind == 'tok' and isinstance(b, VStr) and not b.atoms: return a.len == 0
         if isinstance(l, VBool) and isinstance(r, VBool): return l.t == r.t
         if isinstance(l, VOpt) or isinstance(r, VOpt):
             if isinstance(l, (VOpt, VInt)) and isinstance(r, (VOpt, VInt)): return self.toopt(l) == self.toopt(r)
